@@ -12,18 +12,21 @@ Parts
   io_asan  the same harness built natively with -fsanitize=address (no TSan instrumentation, no
            deterministic scheduler): bounds oracle for bad descriptors (oracle-only, no model).
 
-Failure classes (first words of the message; one known-finding entry per class is possible):
-  oracle nonblocking-blocked   a call on an O_NONBLOCK / FIONBIO / MSG_DONTWAIT descriptor parked
-  oracle blocking-eagain       a call on a descriptor in blocking mode returned -1/EAGAIN
-  oracle closed-eagain         ... same, the descriptor was closed by another fiber meanwhile
-  oracle oob                   an index into fd_info / wait_info outside [0, max_fd)
-  oracle bad-fd-crash          SIGSEGV inside a shim called with an invalid descriptor
-  oracle invalid-fd-noerror        an invalid descriptor did not yield an error return
-  oracle zerolen-blocked       a zero-length read parked although the plain call returns at once
-  oracle fcntl-mode            fcntl(F_SETFL, <flags incl./excl. O_NONBLOCK>) did not switch the mode
-  oracle getfl-nonblock        F_GETFL shows the library's private O_NONBLOCK
-  oracle poll-starved          a ready waiter is never resumed because no kernel thread goes idle
-  oracle lost-wakeup           a ready / closed waiter is never resumed (every thread idle)
+Failure classes (first words of the message; `post` puts the classes that have a known-finding
+entry LAST, and those entries are anchored with ^, so a known finding can never hide another class):
+  oracle nonblocking-blocked   a call on an O_NONBLOCK / FIONBIO / MSG_DONTWAIT descriptor parked      (F-C08a, fixed)
+  oracle blocking-eagain       a call on a descriptor in blocking mode returned -1/EAGAIN              (F-C08b, fixed)
+  oracle oob                   an index into fd_info / wait_info outside [0, max_fd)                   (F-C08c, fixed)
+  oracle bad-fd-crash          SIGSEGV inside a shim called with an invalid descriptor                 (F-C08c, fixed)
+  oracle invalid-fd-noerror    an invalid descriptor did not yield an error return                     (F-C08c, fixed)
+  oracle closed-eagain         a parked call woken by close() returned -1/EAGAIN (stale errno)         (F-C08d, fixed)
+  oracle lost-wakeup           a ready / closed waiter is never resumed (every thread idle)            (F-C08h, fixed)
+  oracle zerolen-blocked       a zero-length read/readv parked although the plain call returns at once (F-C08e, known)
+  oracle fcntl-mode (..)       fcntl(F_SETFL, flags incl./excl. O_NONBLOCK) did not switch the mode    (F-C08f, known)
+  oracle getfl-nonblock        F_GETFL shows the library's private O_NONBLOCK                          (F-C08f, known)
+  oracle poll-starved          a ready waiter is never resumed because no kernel thread goes idle      (F-C08g, known)
+  oracle errno-migration (..)  wrong result after the fiber resumed on ANOTHER kernel thread           (F-C08i, known)
+  oracle close-race (..)       a call ENTERING while close() runs on another kernel thread             (F-C08j, known)
   oracle not-transparent       return value differs from the last underlying call's
   oracle ref-differs           canonical outcome differs from the plain blocking reference
   oracle data                  bytes lost / duplicated / reordered (status DATAERR)
@@ -218,6 +221,7 @@ def analyse(log_path, case, native=False):
                 if func == "fiber_wait_for_event" and fib in cur:
                     cur[fib]["waited"] = True
                     cur[fib]["ctl"] = int(a[4])
+                    cur[fib]["ctl_line"] = ln
             elif a[0] == "call":
                 fd = int(a[2])
                 if a[1] == "close":
@@ -378,7 +382,7 @@ def analyse(log_path, case, native=False):
                     why.append("oracle errno-migration (not-transparent) underlying results %s discarded, the call never returns (kernel threads %s): %s" % (discarded[:3], sorted(c["tids"]), where))
                 elif ready and spinning:
                     why.append("oracle poll-starved descriptor ready but no kernel thread ever polls (fibers %s only yield): %s" % (spinning, where))
-                elif ready and (fd in closed or fd in closing) and c["ctl"] == 0:
+                elif ready and (fd in closed or fd in closing) and c["ctl"] == 0 and c.get("ctl_line", 0) > closing.get(fd, 1 << 60):
                     why.append("oracle close-race (lost-wakeup) registered with epoll between fiber_fd_closed and the real close on another kernel thread, never resumed: " + where)
                 elif ready:
                     why.append("oracle lost-wakeup descriptor ready/closed, waiter never resumed: " + where)
